@@ -18,6 +18,9 @@ pub struct Item {
     pub buf: BufSpec,
     /// receiver storage = pdu length + extra
     pub storage_extra: u32,
+    /// change the re-use setting just before this item
+    #[serde(default)]
+    pub set_reuse: Option<ReuseCfg>,
 }
 
 #[derive(Clone, Debug, PartialEq, Eq, Hash, Serialize, Deserialize)]
@@ -38,7 +41,8 @@ fn strategy(_t: Tier) -> BoxedStrategy<Case> {
     ];
     let extra = prop_oneof![3 => Just(0u32), 2 => Just(1u32), 2 => 2u32..=70000];
     let lab = prop_oneof![8 => lab_addr_or_bcast(), 1 => Just(Lab::ReUse)];
-    let item = (len, pdu_seed(), lab, ptype_user(), any::<u8>(), buf, extra).prop_map(|(len, seed, lab, ptype, frag_id, buf, storage_extra)| Item { pdu: Pdu { len, seed }, lab, ptype, frag_id, buf, storage_extra });
+    let set = prop_oneof![6 => Just(None), 1 => reuse_cfg().prop_map(Some)];
+    let item = (len, pdu_seed(), lab, ptype_user(), any::<u8>(), buf, extra, set).prop_map(|(len, seed, lab, ptype, frag_id, buf, storage_extra, set_reuse)| Item { pdu: Pdu { len, seed }, lab, ptype, frag_id, buf, storage_extra, set_reuse });
     bx((reuse_cfg(), prop::collection::vec(item, 1..=6)).prop_map(|(reuse, items)| Case { reuse, items }))
 }
 
@@ -51,6 +55,10 @@ fn check(c: &Case, st: &mut Stats) -> Result<(), String> {
     let mut nontrivial = false;
     for (i, it) in c.items.iter().enumerate() {
         let pdu = it.pdu.bytes();
+        if let Some(cfg) = it.set_reuse {
+            apply_reuse(&mut enc, cfg);
+            st.class("setting-changed-mid-stream");
+        }
         let blen = it.buf.first(pdu.len(), it.lab.len(), 0);
         let mut buf = vec![0u8; blen];
         let r = match call_encap(&mut enc, &pdu, it.frag_id, it.ptype, it.lab, &mut buf) {
